@@ -476,10 +476,10 @@ class Padding(WidgetDecoration[WrappedWidget], typing.Generic[WrappedWidget]):
             return False
 
         left, right = self.padding_values(size, focus)
+        maxcol = size[0] if size else self.pack((), focus)[0]
+        if col < left or col >= maxcol - right:
+            return False
         if size:
-            maxcol = size[0]
-            if col < left or col >= maxcol - right:
-                return False
             maxvals = (maxcol - left - right,) + size[1:]
         else:
             maxvals = self._fixed_child_size()
